@@ -2,7 +2,7 @@
 \* C12 inputs: (pattern, instance) pairs obtained by punching holes (every position, every shift 0..depth, one or two
 \* holes, shared or distinct identities) into every well-typed program up to MaxSize; occurs-check configurations
 \* (a hole against a term containing it); reflexive and reduct pairs of hole-free terms.
-EXTENDS GramBuild, GramUnify, Json
+EXTENDS GramBuild, GramUnify, GramPool, Json
 CONSTANTS TyFuel
 T == Built
 WellTyped(t) == Infer(t, <<>>, TyFuel).r = "ok" /\ DefOrderOK(t)     \* no divergent definitions: conversion terminates
@@ -33,6 +33,8 @@ Cycle2(t) == { P("cycle2", Replace(Replace(t, s1.pos, Hole(1, s1.d)), s2.pos, Ho
 \* unrelated terms: one subterm replaced by a different constant -- unification has to fail (or succeed, where the subterm does
 \* not matter) part-way through the binders above the position, and leave the caller's context as it was (C18)
 Mismatch(t) == UNION { { P("mismatch", Replace(t, s.pos, k), t) : k \in {TType, TInt, Lit(OfSmall(1))} \ {s.sub} } : s \in { x \in Subterms(t, <<>>, 0) : x.pos # <<>> } }
+\* unrelated hole-free terms: the host against every member of the pool -- whenever unification succeeds the two must be equal
+Unrelated(t) == { P("unrelated", t, u) : u \in Pool \ {t} }
 \* two calls in a row on shared holes: the first leaves a hole g unsolved inside the solution of h, the second solves g.
 \* (pattern: h with shift sh at s1; instance: g at s2 strictly inside s1)  then  (instance, t)
 TwoStep(t) == UNION { { [kind |-> "twostep", a |-> Replace(t, s1.pos, Hole(1, p[1])), b |-> Replace(t, s2.pos, Hole(2, p[2])), a2 |-> Replace(t, s2.pos, Hole(2, p[2])), b2 |-> t] : p \in (0..s1.d) \X (0..s2.d) }
@@ -44,7 +46,7 @@ SInit == CASE Skel = 0 -> BInit
            [] Skel = 1 -> pre = <<[k |-> "lam"], [k |-> "type"]>> /\ pending = <<1>> /\ size = 2
            [] Skel = 2 -> pre = <<[k |-> "lam"], [k |-> "type"], [k |-> "lam"], [k |-> "type"]>> /\ pending = <<2>> /\ size = 4
 Reducts(t) == { P("reduct", t, StepN(t, k)) : k \in 0..3 }
-Pairs(t) == SingleOK(t) \cup Double(t) \cup Cross(t) \cup Occurs(t) \cup Nested(t) \cup Cycle2(t) \cup Mismatch(t) \cup Reducts(t)
+Pairs(t) == SingleOK(t) \cup Double(t) \cup Cross(t) \cup Occurs(t) \cup Nested(t) \cup Cycle2(t) \cup Mismatch(t) \cup Unrelated(t) \cup Reducts(t)
 Emit2 == (Done /\ size >= 2 /\ ~HasHole(T) /\ WellTyped(T)) => \A p \in TwoStep(T) : PrintT(<<"PAIR", ToJson(p)>>)
 Emit == (Done /\ size >= 2 /\ ~HasHole(T) /\ WellTyped(T)) => \A p \in Pairs(T) : PrintT(<<"PAIR", ToJson(p)>>)
 ====
